@@ -90,7 +90,12 @@ fn gen_case(r: &mut Rng) -> Case {
         p.hanafi = Some(r.chance(0.5));
     }
     if r.chance(0.25) {
-        let pol = *r.pick(&POLICIES);
+        let mut pol = *r.pick(&POLICIES);
+        // interval-defined methods under the policies that consume the intervals themselves are outside C08's
+        // quantifier (the unused 0-degree Isha angle then shows through); not generated here either
+        while p.method >= 7 && (pol.starts_with("HalfOfNight") || pol == "MinutesFromMaghribFajrIshaInvalid") {
+            pol = *r.pick(&POLICIES);
+        }
         let pl = if is_nearest_lat(pol) { Some(r.range(-60.0, 60.0)) } else { None };
         p = p.with_policy(pol, pl);
     }
